@@ -51,6 +51,14 @@ func (e *Engine) GenFunc(key string) (vcs []*VC, res *FuncResult) {
 			}
 		}
 	}()
+	if con != nil && con.Kind == "lemma" {
+		res.Short = key
+		res.Cases = 1
+		vc := e.lemmaVC(con)
+		res.Obls = append(res.Obls, vc.Obls...)
+		vcs = append(vcs, vc)
+		return
+	}
 	if fn == nil || con == nil {
 		res.Err, res.ErrKind = "contract stale: function not found: "+key, "stale"
 		return
@@ -102,6 +110,12 @@ func (e *Engine) setup(fn *ssa.Function, con *Contract, choice []splitChoice) *f
 	x := &Exec{eng: e, vc: vc, heap0: map[string]*Term{}, top0: Var("top0", SInt), callSeqs: map[string]int{}, sentinels: map[string]*Term{}}
 	x.modeBV = con.Mode == "bv"
 	vc.X = x
+	x.opaque = map[string]bool{}
+	for _, n := range strings.Split(con.Opts["opaque"], ",") {
+		if n = strings.TrimSpace(n); n != "" {
+			x.opaque[n] = true
+		}
+	}
 	vc.Assume(Ge(x.top0, IntLit(0)))
 	var params []*Val
 	for _, p := range fn.Params {
@@ -171,6 +185,19 @@ func (fr *Frame) specEnv(n *vnode, heap map[string]*Term) *SpecEnv {
 			if v, ok := f.extraNames[s]; ok {
 				return &SV{T: v.T, Ty: v.Ty}
 			}
+		}
+		if s == "_i" && f == fr {
+			// index about to be visited by the range loop whose head is this block
+			for _, in := range n.b.Instrs {
+				if phi, ok := in.(*ssa.Phi); ok && (phi.Comment == "rangeindex" || phi.Comment == "rangeint.iter") {
+					v := f.lookup(phi, n)
+					if phi.Comment == "rangeindex" {
+						return &SV{T: Add(v.T, IntLit(1)), Ty: phi.Type()}
+					}
+					return &SV{T: v.T, Ty: phi.Type()}
+				}
+			}
+			return nil
 		}
 		cands := f.names[s]
 		// prefer a phi of the current block, then unique dominating value
@@ -375,6 +402,16 @@ func (e *Engine) verifyCase(fn *ssa.Function, con *Contract, choice []splitChoic
 		o := vc.Oblige("vacuity", "vacuity.exit", True, Not(reach), x.pos(fn.Pos()), "some normal exit is reachable under the accumulated hypotheses (expected: sat)")
 		o.Result, o.Solver, o.Folded = "", "", false
 	}
+	for i, d := range con.Defines {
+		// ghost definition of an abstract view on the freshly allocated result: a conservative extension,
+		// admitted only if the result is provably fresh
+		if len(results) == 0 || results[0].T == nil {
+			stale("defines needs a result")
+		}
+		vc.Oblige("defines-fresh", fmt.Sprintf("defines-fresh.%d", i), reach, Or(Eq(results[0].T, IntLit(0)), Gt(results[0].T, x.top0)), x.pos(fn.Pos()), "the object whose abstract view is defined is freshly allocated")
+		vc.Assume(Implies(reach, post.evalBool(d.E)))
+		e.Note("ghost definition admitted for the fresh result of " + fn.String() + ": " + d.Text)
+	}
 	for i, en := range con.Ensures {
 		t := post.evalBool(en.E)
 		vc.Oblige("post", fmt.Sprintf("post.%d", i), reach, t, x.pos(fn.Pos()), en.Text)
@@ -418,13 +455,21 @@ func (e *Engine) frameChecker(x *Exec, fr *Frame, con *Contract, pre *SpecEnv) f
 	all := false
 	for _, m := range con.Modifies {
 		ex := m.E
+		if ex.Kind == "call" && ex.Name == "elems" && len(ex.Args) == 1 {
+			sv := pre.eval(ex.Args[0])
+			if sv.T.S == SSlice {
+				el := sv.Ty.Underlying().(*types.Slice).Elem()
+				al = append(al, allowed{comp: memComp(e.SortOf(el)), ref: SArr(sv.T), lo: SOff(sv.T), hi: Add(SOff(sv.T), SCap(sv.T))})
+				continue
+			}
+		}
 		switch ex.Kind {
 		case "ident":
 			if ex.Name == "all" {
 				all = true
 				continue
 			}
-			if ex.Name == "nothing" {
+			if ex.Name == "nothing" || ex.Name == "cursors" {
 				continue
 			}
 			sv := pre.eval(ex)
@@ -533,8 +578,37 @@ func (e *Engine) splitCover(fn *ssa.Function, con *Contract) *VC {
 	return vc
 }
 
+// lemmaVC: a closed formula proved with all spec functions transparent.
+func (e *Engine) lemmaVC(con *Contract) *VC {
+	vc := &VC{Eng: e, counts: map[string]int{}}
+	x := &Exec{eng: e, vc: vc, heap0: map[string]*Term{}, top0: Var("top0", SInt), callSeqs: map[string]int{}, sentinels: map[string]*Term{}, opaque: map[string]bool{}}
+	vc.X = x
+	env := &SpecEnv{x: x, heap: map[string]*Term{}, bound: map[string]*SV{}}
+	for i, en := range con.Ensures {
+		vc.Oblige("lemma", fmt.Sprintf("lemma.%d", i), True, env.evalBool(en.E), con.File, en.Text)
+	}
+	return vc
+}
+
 func (e *Engine) globalAxioms(x *Exec) {
 	vc := x.vc
+	// lemmas this contract uses: proved separately (transparent), assumed here over the opaque symbols
+	if x.topFrame != nil && x.topFrame.contract != nil {
+		for _, ln := range strings.Split(x.topFrame.contract.Opts["uses"], ",") {
+			ln = strings.TrimSpace(ln)
+			if ln == "" {
+				continue
+			}
+			lc := e.Contracts["lemma:"+ln]
+			if lc == nil {
+				stale("unknown lemma %q", ln)
+			}
+			env := &SpecEnv{x: x, heap: map[string]*Term{}, bound: map[string]*SV{}}
+			for _, en := range lc.Ensures {
+				vc.Assume(env.evalBool(en.E))
+			}
+		}
+	}
 	// user axioms
 	env := &SpecEnv{x: x, heap: map[string]*Term{}, bound: map[string]*SV{}}
 	for _, a := range e.Axioms {
